@@ -1,7 +1,7 @@
 """Per-format profiles: which model features the renderer can express, how to render, how the documentation places text."""
 from __future__ import annotations
 
-from vf.gen import odf, ooxml, rtfgen, simple
+from vf.gen import legacy, odf, ooxml, rtfgen, simple
 
 FLOW_INLINE = {"run.multi", "run.tab", "run.break", "run.link"}
 
@@ -81,4 +81,10 @@ PROFILES = {
             "table_text_in_full_text": True, "unit_kind": "message", "max_units": 1},
     "mbox": {"ext": "mbox", "render": lambda doc, **kw: simple.render_mbox(doc, **kw), "features": {"run.multi", "run.break", "list.flat", "table.simple", "unit.multi"},
              "table_text_in_full_text": True, "unit_kind": "message", "max_units": 3},
+    "ppt": {"ext": "ppt", "render": lambda doc, **kw: legacy.render_ppt(doc, **kw),
+            "features": {"run.multi", "run.break", "para.heading", "list.flat", "unit.multi", "unit.empty", "excluded.speaker-notes"},
+            "table_text_in_full_text": True, "unit_kind": "slide", "max_units": 4, "opts": {"codepage": [65001, 65001, 1252, 1200], "text_placement": ["both", "both", "outline"]}},
+    "doc": {"ext": "doc", "render": lambda doc, **kw: legacy.render_doc(doc, **kw),
+            "features": {"run.multi", "list.flat"}, "decoration": [w for w in legacy.FILLER.split()] + ["Lorem"],
+            "table_text_in_full_text": True, "unit_kind": "flow", "max_units": 1, "opts": {"codepage": [65001, 65001, 1252, 1200]}},
 }
